@@ -8,6 +8,7 @@ import TgModel.LineIndex
 import TgModel.Include
 import TgModel.SymbolMap
 import TgModel.Host
+import TgModel.Sched
 
 open Tg
 
@@ -158,6 +159,33 @@ def cmdHost (rest : String) : String :=
       s!"root={o.root.getD 999999} files={files} {" ".intercalate rows}"
   | _ => "bad-args"
 
+/-- all maximal schedules of the model from a state (DFS, capped) -/
+partial def schedDfs (fixed : Bool) (s : Sched.State) (pre : List String) (acc : Array String × Nat) (cap : Nat) :
+    Array String × Nat :=
+  if acc.1.size ≥ cap then acc else
+  let acts : List Sched.Act := .main :: (List.range s.tasks.length).map .task
+  let nexts := acts.filterMap fun a => (Sched.step fixed s a).map fun s' => (a, s')
+  if nexts.isEmpty then
+    let tag := if s.jobs.isEmpty && s.pc == .idle && s.tasks.isEmpty then "F" else "D"
+    (acc.1.push (tag ++ ":" ++ ",".intercalate pre.reverse), acc.2 + (if tag == "D" then 1 else 0))
+  else
+    nexts.foldl (fun acc (a, s') =>
+      let name := match a with | .main => "M" | .task i => s!"T{i}"
+      schedDfs fixed s' (name :: pre) acc cap) acc
+
+/-- `sched <fixed 0|1> <cap> <jobs>`; jobs `,`-separated `e<r>` (edit, r reads) | `q<r>` (request) -/
+def cmdSched (rest : String) : String :=
+  match rest.splitOn " " with
+  | [fx, cap, js] =>
+    let jobs : List (Sched.Job × Nat) := (js.splitOn ",").filterMap fun j =>
+      match j.toList with
+      | 'e' :: r => some (.edit, (String.ofList r).toNat!)
+      | 'q' :: r => some (.request, (String.ofList r).toNat!)
+      | _ => none
+    let (scheds, dead) := schedDfs (fx == "1") (Sched.init jobs) [] (#[], 0) cap.toNat!
+    s!"n={scheds.size} deadlocks={dead} " ++ " ".intercalate scheds.toList
+  | _ => "bad-args"
+
 def dispatch (cmd rest : String) : String :=
   match cmd with
   | "lex" => match payload rest with | some s => cmdLex s | none => "bad-utf8"
@@ -169,6 +197,7 @@ def dispatch (cmd rest : String) : String :=
   | "graph" => cmdGraph rest
   | "symmap" => cmdSymmap rest
   | "host" => cmdHost rest
+  | "sched" => cmdSched rest
   | _ => s!"bad-cmd {cmd}"
 
 partial def loop (h : IO.FS.Stream) (out : IO.FS.Stream) : IO Unit := do
